@@ -281,6 +281,15 @@ class Check:
             shutil.copyfile(sumsrc, os.path.join(hdir, "go.sum"))
         out = out or os.path.join(VERIF, ".build", pkg + ("-race" if race else ""))
         cmd = ["go", "build", "-tags", tags]
+        if os.path.realpath(REPO) != "/repo":
+            # testing against a scratch worktree (seeded changes): same module, other replace target
+            alt = os.path.join(VERIF, ".work", "gomod-" + hashlib.sha256(REPO.encode()).hexdigest()[:8])
+            os.makedirs(alt, exist_ok=True)
+            mod = open(os.path.join(hdir, "go.mod")).read().replace("=> /repo", "=> " + os.path.realpath(REPO))
+            open(os.path.join(alt, "go.mod"), "w").write(mod)
+            shutil.copyfile(os.path.join(hdir, "go.sum"), os.path.join(alt, "go.sum"))
+            cmd += ["-modfile", os.path.join(alt, "go.mod")]
+            out = out + "-alt"
         if race:
             cmd.append("-race")
         cmd += ["-o", out, "./cmd/" + pkg]
